@@ -309,6 +309,67 @@ def Props.strip (s : Props) (except : List Key) : Props := except.foldl (stripKe
 
 def Ent.strip (x : Ent) (except : List Key) : Ent := { x with props := x.props.strip except, attached := false }
 
+/-! ### JSON (encoding/json of graph.Properties by its struct tags; a Node through `serializableNode` in
+`Node.MarshalJSON` / `NodeSet.UnmarshalJSON`) -/
+
+/-- the JSON values that occur: `null`, an object of property values, an object of `{}` members (a Go
+`map[string]struct{}`), an array of kind names -/
+inductive JVal where
+  | null
+  | map (m : KV)
+  | set (s : List Key)
+  | strs (l : List Kind)
+deriving Repr, DecidableEq, Inhabited
+
+abbrev JObj := List (String × JVal)
+
+def jget (j : JObj) (tag : String) : JVal :=
+  match j.find? (fun p => p.1 == tag) with
+  | some p => p.2
+  | none => .null
+
+def JVal.ofMap : Option KV → JVal
+  | none => .null
+  | some m => .map m
+def JVal.ofSet : Option (List Key) → JVal
+  | none => .null
+  | some s => .set s
+/-- decoding into a `map[string]any` field: `null` leaves it nil -/
+def JVal.toMap : JVal → Option KV
+  | .map m => some m
+  | _ => none
+def JVal.toSet : JVal → Option (List Key)
+  | .set s => some s
+  | _ => none
+def JVal.toStrs : JVal → List Kind
+  | .strs l => l
+  | _ => []
+
+/-- the json struct tags of `Properties`, in field order (tied to the source by `json_tags_match`) -/
+def Props.jsonTags : List (String × String) := [("Map", "map"), ("Deleted", "deleted"), ("Modified", "modified")]
+
+/-- `json.Marshal(properties)` -/
+def Props.toJson (s : Props) : JObj :=
+  [("map", .ofMap s.map), ("deleted", .ofSet s.deleted), ("modified", .ofSet s.modified)]
+
+/-- `json.Unmarshal(…, &properties)`: members are found by tag, a missing or `null` member leaves the field nil -/
+def Props.ofJson (j : JObj) : Props :=
+  { map := (jget j "map").toMap, modified := (jget j "modified").toSet, deleted := (jget j "deleted").toSet }
+
+/-- `Node.MarshalJSON`: `serializableNode{ID, Kinds.Strings(), AddedKinds.Strings(), DeletedKinds.Strings(), Properties}`
+(the id is not part of the model) -/
+def Ent.toJson (x : Ent) : JObj × JObj :=
+  ([("kinds", .strs x.kinds), ("added_kinds", .strs x.added), ("deleted_kinds", .strs x.removed)], x.props.toJson)
+
+/-- `NodeSet.UnmarshalJSON`: `Node{ID, StringsToKinds(Kinds), StringsToKinds(AddedKinds), StringsToKinds(DeletedKinds),
+Properties}`; the ghost flag is a fact about the stored state, not about the encoding, and stays what it was -/
+def Ent.ofJson (attached : Bool) (j : JObj × JObj) : Ent :=
+  { props := Props.ofJson j.2, kinds := (jget j.1 "kinds").toStrs, added := (jget j.1 "added_kinds").toStrs,
+    removed := (jget j.1 "deleted_kinds").toStrs, attached := attached }
+
+/-- marshal, then unmarshal into a fresh entity -/
+def Ent.jsonRoundTrip (x : Ent) : Ent := Ent.ofJson x.attached x.toJson
+
 /-! ### Histories over two tracked entities loaded from one state -/
 
 structure Loaded where
@@ -341,6 +402,7 @@ inductive Op where
   | nmerge (e f : Bool)                               -- e.Merge(f)            (Node.Merge)
   | rmerge (e f : Bool)                               -- e.Merge(f)            (Relationship.Merge)
   | strip (e : Bool) (except : List Key)              -- e.StripAllPropertiesExcept(except...)
+  | json (e : Bool)                                   -- e = unmarshal(marshal(e))   (encoding/json)
 deriving Repr, DecidableEq, Inhabited
 
 def Ent.withProps (x : Ent) (p : Props) : Ent := { x with props := p }
@@ -358,6 +420,7 @@ def St.step (old : Bool) (st : St) : Op → St
   | .nmerge e f => st.put e ((st.get e).mergeV old (st.get f))
   | .rmerge e f => st.put e ((st.get e).relMerge old (st.get f))
   | .strip e ks => st.put e ((st.get e).strip ks)
+  | .json e => st.put e (st.get e).jsonRoundTrip
 
 def St.run (old : Bool) (st : St) : List Op → St
   | [] => st
